@@ -87,6 +87,20 @@ pub fn check(v: &View, vd: &mut Verdict) {
             }
             _ => {}
         }
+        // a queued message is not starved by a burst of items (each iteration of the loop chooses at
+        // random between a ready mailbox and a ready stream: 48 items in a row has probability 2^-48)
+        for o in v.client_ops().filter(|o| o.actor == Some(a) && matches!(o.what, OpWhat::Send | OpWhat::Call) && o.msg.is_some()) {
+            let Some(inv) = v.inv_of_msg(o.msg.unwrap()).into_iter().next() else { continue };
+            // items entered after the message was certainly in the mailbox (send returned / call was pending one event later)
+            let queued_from = o.end.filter(|_| o.what == OpWhat::Send).unwrap_or(o.begin + 2);
+            // ... and was at the head of the (FIFO) mailbox: after the previous mailbox-sourced invocation
+            let pred = v.invs.iter().filter(|i| i.actor == a && !matches!(i.msg, MsgRef::Item(_)) && i.enter < inv.enter).map(|i| i.enter).max().unwrap_or(0);
+            let from = queued_from.max(pred);
+            let items_between = handled.iter().filter(|i| i.enter > from && i.enter < inv.enter).count();
+            if items_between >= 48 {
+                vd.fail("C13/message_starved_by_items", format!("actor {a}: message {} was at the head of the mailbox from {from} on, but {items_between} stream items in a row were handled before it at {}", o.msg.unwrap(), inv.enter));
+            }
+        }
         // classes
         let msgs = v.invs.iter().any(|i| i.actor == a && matches!(i.msg, MsgRef::Client(_)));
         if !handled.is_empty() && msgs {
